@@ -24,13 +24,7 @@ pub fn ivs(o: &mut Obs, env: &Env, store: &ItemVariationStore, coords: &[Vec<F2D
                 o.helper("ItemVariationData::get_delta_row_len");
                 o.d.u64(d.get_delta_row_len() as u64);
                 for inner in [0u16, 1, d.item_count().wrapping_sub(1), d.item_count(), 0xFFFF] {
-                    o.helper("ItemVariationData::delta_set");
-                    let mut k = 0;
-                    for v in d.delta_set(inner).take(70_000) {
-                        o.d.i64(v as i64);
-                        k += 1;
-                    }
-                    o.d.u32(k);
+                    o.drain("ItemVariationData::delta_set", "regionIndexCount", d.region_index_count() as u64, 70_000, d.delta_set(inner), |o, v| o.d.i64(v as i64));
                 }
                 d.item_count()
             }
@@ -98,11 +92,13 @@ fn tuple_data<'a, T: TupleDelta + std::fmt::Debug>(
     data: &TupleVariationData<'a, T>,
     coords: &'a [Vec<F2Dot14>],
     what: &'static str,
+    table_len: usize,
 ) {
-    o.helper(what);
-    let mut nt = 0;
-    for t in data.tuples().take(env.cap(4096, 24)) {
-        nt += 1;
+    // packed deltas: a control byte encodes at most 64 values (a zero run needs no data bytes), and the
+    // serialized data of one tuple is at most 65 535 bytes (variationDataSize is a u16) of the table
+    let delta_ceiling = 64 * table_len.min(65_535) as u64;
+    // (tupleVariationCount: low 12 bits)
+    o.drain(what, "tupleVariationCount&0x0FFF", 4095, env.cap(4096, 24), data.tuples(), |o, t| {
         let peak = t.peak();
         o.d.u64(peak.len() as u64);
         for i in 0..peak.len().min(64) {
@@ -123,37 +119,18 @@ fn tuple_data<'a, T: TupleDelta + std::fmt::Debug>(
         }
         o.helper("TupleVariation::has_deltas_for_all_points");
         o.d.bytes(&[t.has_deltas_for_all_points() as u8]);
-        o.helper("TupleVariation::point_numbers");
-        let pn = t.point_numbers();
-        let mut k = 0u32;
-        for p in pn.take(70_000) {
-            o.d.u32(p as u32);
-            k += 1;
-        }
-        o.d.u32(k);
-        o.helper("TupleVariation::deltas");
-        let mut k = 0u32;
-        for d in t.deltas().take(140_000) {
-            o.d.dbg(&d);
-            k += 1;
-        }
-        o.d.u32(k);
+        // (point numbers are u16 values that only grow; "all points" counts up to 65 535)
+        o.drain("TupleVariation::point_numbers", "65536", 65_536, 70_000, t.point_numbers(), |o, p| o.d.u32(p as u32));
+        o.drain("TupleVariation::deltas", "64*min(table_bytes,65535)", delta_ceiling, 140_000, t.deltas(), |o, d| o.d.dbg(&d));
         for c in coords.iter().take(env.cap(16, 5)) {
             o.helper("TupleVariation::compute_scalar");
             o.d.dbg(&t.compute_scalar(c).map(|f| f.to_bits()));
             o.helper("TupleVariation::compute_scalar_f32");
             o.d.dbg(&t.compute_scalar_f32(c).map(|f| f.to_bits()));
         }
-    }
-    o.d.u32(nt);
+    });
     for c in coords.iter().take(env.cap(16, 4)) {
-        o.helper("TupleVariationData::active_tuples_at");
-        let mut k = 0u32;
-        for (_t, s) in data.active_tuples_at(c).take(4096) {
-            o.d.i64(s.to_bits() as i64);
-            k += 1;
-        }
-        o.d.u32(k);
+        o.drain("TupleVariationData::active_tuples_at", "tupleVariationCount&0x0FFF", 4095, 4096, data.active_tuples_at(c), |o, (_t, s)| o.d.i64(s.to_bits() as i64));
     }
 }
 
@@ -199,7 +176,7 @@ pub fn gvar<'a>(o: &mut Obs, env: &Env, gvar: &Gvar<'a>, glyf: Option<(&Glyf<'a>
             Ok(Some(data)) => {
                 with_data += 1;
                 if env.full || with_data <= 6 {
-                    tuple_data::<GlyphDelta>(o, env, &data, &coords, "GlyphVariationData::tuples");
+                    tuple_data::<GlyphDelta>(o, env, &data, &coords, "GlyphVariationData::tuples", gvar.as_bytes().len());
                     // dense / sparse accumulation into buffers of boundary sizes
                     let npts = glyf
                         .and_then(|(glyf, loca)| loca.get_glyf(gid, glyf).ok().flatten())
@@ -270,7 +247,7 @@ pub fn cvar(o: &mut Obs, env: &Env) {
         let coords = coord_sets(ac, false);
         o.helper("Cvar::variation_data");
         match cvar.variation_data(ac) {
-            Ok(data) => tuple_data(o, env, &data, &coords, "CvtVariationData::tuples"),
+            Ok(data) => tuple_data(o, env, &data, &coords, "CvtVariationData::tuples", cvar.offset_data().len()),
             Err(e) => o.err(&e),
         }
         for c in coords.iter().take(5) {
@@ -416,11 +393,11 @@ pub fn metrics_var(o: &mut Obs, env: &Env, want: &dyn Fn(&[&[u8; 4]]) -> bool) {
                         }
                     }
                     let mut k = 0;
-                    for r in inst.iter().take(70_000) {
+                    o.drain("Fvar::instances.iter", "instanceCount", n as u64, 70_000, inst.iter(), |_, r| {
                         if let Ok(r) = r {
                             k += r.coordinates.len();
                         }
-                    }
+                    });
                     o.d.u64(k as u64);
                 }
                 Err(e) => o.err(&e),
